@@ -104,6 +104,7 @@ fn shapes(thorough: bool) -> Vec<String> {
         "struct S(u8, {F} u8, u8);".into(),
         "struct S {}".into(),
         "struct S();".into(),
+        "enum E { A, #[darling(skip)] B(u8, u8), {V} C() }".into(),
         "enum E { {V} A(), B {} }".into(),
         "struct S({F} u8, #[darling(skip)] u16);".into(),
         "struct S { {F} a: u8 }".into(),
